@@ -113,6 +113,20 @@ class _Process:
             self._chunks = out
         return self._chunks
 
+    def kill(self):
+        """Process.kill(): SIGKILL, cannot be ignored"""
+        self.env.killed.append((self.idx, self.is_alive()))
+        self.was_killed = True
+
+    def terminate(self):
+        """Process.terminate(): SIGTERM - a worker that ignores or handles SIGTERM keeps running
+        (env.term_ignored, chosen by the solver)"""
+        if getattr(self.env, "term_ignored", False):
+            self.env.log.append(("terminate-ignored", self.idx))
+            return
+        self.env.killed.append((self.idx, self.is_alive()))
+        self.was_killed = True
+
     def is_alive(self):
         if not self.started or self.was_killed:
             return False
